@@ -24,9 +24,10 @@
                   site (CkDone: 1 entry loaded, 2 before a value is returned, 3 end of the border, 4 inside retry_after_fb) /
                   link entry: INChild second load of the slot word (not a link any more -> retry_from_root), callback / INCfb find_border of the
                   child (not root -> retry_from_root), permutation snapshot, stack push / INEnd end of a border: END in layer 0, stack pop in layer 1
-     retries    : IRFb retry_after_fb (rewind in the border) / IRRoot retry_from_root: stable version of the saved layer root: deleted -> leave the layer
-                  (stack pop); not root -> IRUp the link is fetched again through the border of the upper layer (permutation + slot word without
-                  any version check): a link -> new layer root, IRRoot again; none -> leave the layer; else IRFind find_border by the last key
+     retries    : IRFb retry_after_fb (rewind in the border) / IRRoot retry_from_root: stable version of the saved layer root: deleted or not root ->
+                  IRRes1..4 the layer's current root is looked up from the tree root along the link tuple saved for layer 0 (root pointer, stable version
+                  and permutation of B0, slot word): no link -> leave the layer (stack pop); another node -> new layer root, IRRoot again; the same deleted
+                  node -> IRIsB (a border: the layer is being removed, leave it); else IRFind find_border by the last key
    Ghosts abs / seen / res as in YkConc4 (seen per key).  B0 itself is never emptied by the programs (assumption of this model; YkConc covers the empty root).
    Defect switches: NO_CHILD_ROOT_CLEAR (the removed layer root keeps its root flag: a writer takes it for an empty tree root and inserts
    into the unlinked layer), NO_DESCENT_RECHECK (the child pointer is used without re-validating the upper border: slot reuse turns a value
@@ -328,19 +329,26 @@ IRFb(t) == /\ pc[t] = "ir_fb" /\ LET l == loc[t] IN
 \* retry_from_root of the layer the cursor is in
 IRRoot(t) == /\ pc[t] = "ir_root" /\ Stable(nd[Top(loc[t]).root].ver)
              /\ LET l == loc[t] r == Top(l).root rv == nd[r].ver IN
-                IF rv.del THEN (IF Len(l.st) = 1 THEN Goto(t, "i_ret") /\ UNCHANGED loc ELSE Goto(t, "ir_isb") /\ UNCHANGED loc)
-                ELSE IF ~rv.root THEN (IF Len(l.st) = 1 THEN Goto(t, "ir_root") /\ UNCHANGED loc ELSE Goto(t, "ir_up") /\ UNCHANGED loc)
+                IF rv.del THEN (IF Len(l.st) = 1 THEN Goto(t, "i_ret") /\ UNCHANGED loc ELSE loc' = [loc EXCEPT ![t].iph = "del"] /\ Goto(t, "ir_res1"))
+                ELSE IF ~rv.root THEN (IF Len(l.st) = 1 THEN Goto(t, "ir_root") /\ UNCHANGED loc ELSE loc' = [loc EXCEPT ![t].iph = "nroot"] /\ Goto(t, "ir_res1"))
                 ELSE Goto(t, "ir_find") /\ UNCHANGED loc
              /\ UNCHANGED U6
-\* deleted saved root below layer 0: one more load of its version word (border or interior?).  A border (always, in this model): the layer is gone,
-\* the cursor leaves it; an interior root that collapsed would be looked up again through the upper link (fix F18; outside this model)
+\* iscan_resolve_top_layer_root: the current root of the layer is looked up from the tree root along the link tuple saved for layer 0
+\* (tree root pointer, find_border = stable version of B0, permutation of B0, slot word); B0 is always the tree root here
+IRRes1(t) == /\ pc[t] = "ir_res1" /\ Goto(t, "ir_res2") /\ UNCHANGED <<loc, nd, abs, seen, res>>
+IRRes2(t) == /\ pc[t] = "ir_res2" /\ Stable(nd[0].ver) /\ Goto(t, "ir_res3") /\ UNCHANGED <<loc, nd, abs, seen, res>>
+IRDecide(t, l, nr) ==
+   IF nr = 0 THEN loc' = [loc EXCEPT ![t] = Pop(l)] /\ Goto(t, "in_top")                                                        \* the link is gone: leave the layer
+   ELSE IF l.iph = "nroot" \/ nr # Top(l).root THEN loc' = [loc EXCEPT ![t] = SetTop(l, [Top(l) EXCEPT !.root = nr])] /\ Goto(t, "ir_root")
+   ELSE loc' = [loc EXCEPT ![t] = l] /\ Goto(t, "ir_isb")                                                                      \* deleted and still linked: border or interior?
+IRRes3(t) == /\ pc[t] = "ir_res3" /\ LET l == loc[t] up == l.st[Len(l.st) - 1] s == Lookup(0, nd[0].perm, up.key) IN
+                IF s # NoSlot /\ nd[0].kind[s] = "L" THEN loc' = [loc EXCEPT ![t].idx = s] /\ Goto(t, "ir_res4")
+                ELSE IRDecide(t, l, 0)
+             /\ UNCHANGED U6
+IRRes4(t) == /\ pc[t] = "ir_res4" /\ LET l == loc[t] w == IF nd[0].kind[l.idx] = "L" THEN nd[0].lv[l.idx] ELSE 0 IN IRDecide(t, l, w) /\ UNCHANGED U6
+\* the deleted saved root is still what the link leads to: one more load of its version word.  A border (always, in this model): the layer is being
+\* removed, the cursor leaves it (an interior root would be tried again until the writer has swapped the link)
 IRIsB(t) == /\ pc[t] = "ir_isb" /\ loc' = [loc EXCEPT ![t] = Pop(loc[t])] /\ Goto(t, "in_top") /\ UNCHANGED U6
-\* the layer's root is fetched again through the link held by the border of the upper layer (no version protocol)
-IRUp(t) == /\ pc[t] = "ir_up" /\ LET l == loc[t] up == l.st[Len(l.st) - 1] p == nd[up.bn].perm s == Lookup(up.bn, p, up.key) IN
-              IF s # NoSlot /\ nd[up.bn].kind[s] = "L" /\ nd[up.bn].lv[s] # 0
-              THEN loc' = [loc EXCEPT ![t] = SetTop(l, [Top(l) EXCEPT !.root = nd[up.bn].lv[s]])] /\ Goto(t, "ir_root")
-              ELSE loc' = [loc EXCEPT ![t] = Pop(l)] /\ Goto(t, "in_top")
-           /\ UNCHANGED U6
 \* find_border(root, last key): one border per layer in this model; its own stable version, permutation snapshot, rank 0
 IRFind(t) == /\ pc[t] = "ir_find" /\ Stable(nd[Top(loc[t]).root].ver)
              /\ LET l == loc[t] r == Top(l).root v == nd[r].ver IN
@@ -352,7 +360,7 @@ IRArr(t) == /\ pc[t] = "ir_arr" /\ LET l == loc[t] p == nd[l.b].perm IN
             /\ Goto(t, "in_ent") /\ UNCHANGED U6
 IRet(t) == /\ pc[t] = "i_ret" /\ Ret(t, <<"OK", loc[t].out>>) /\ UNCHANGED <<nd, loc, abs, seen>>
 IStep(t) == IOLv1(t) \/ IOP(t) \/ IOLv2(t) \/ IOStack(t) \/ INTop(t) \/ INEnt(t) \/ CK1(t) \/ CK2(t) \/ CK3(t) \/ CK4(t) \/ INChild(t) \/ INCfb(t) \/ INPush(t)
-            \/ IRFb(t) \/ IRRoot(t) \/ IRIsB(t) \/ IRUp(t) \/ IRFind(t) \/ IRArr(t) \/ IRet(t)
+            \/ IRFb(t) \/ IRRoot(t) \/ IRRes1(t) \/ IRRes2(t) \/ IRRes3(t) \/ IRRes4(t) \/ IRIsB(t) \/ IRFind(t) \/ IRArr(t) \/ IRet(t)
 Step(t) == IStep(t) \/ ScanStep(t) \/ Start(t) \/ G0(t) \/ FB(t) \/ LV1(t) \/ PermLd(t) \/ LV2(t) \/ DLv(t) \/ DFc(t) \/ FB1(t) \/ GVal(t) \/ GFc(t) \/ RFc0(t)
            \/ Lock(t) \/ Chk(t) \/ PUndel(t) \/ PSlot(t) \/ PPub(t) \/ PSet(t) \/ PUnlock(t) \/ RClear(t) \/ RPub(t) \/ RUnlock(t)
            \/ RDel(t) \/ RLp(t) \/ RLpl(t) \/ RLpc(t) \/ RRoot0(t) \/ RSelfUnl(t) \/ DPub(t) \/ DUnl(t)
